@@ -426,3 +426,68 @@ def loader_bytemap(prog, eff, fname):
         raise AnalysisBroken("loader %s: unrecognised term %r" % (fname, t))
     walk(t, 0)
     return m
+
+
+# ---------------------------------------------------------------------------
+# what a function establishes about the item it builds (semantic, not name-based)
+
+ITEM_INLINE_PREFIX = ("cbor_new_", "cbor_build_", "cbor_mark_", "cbor_set_")
+ITEM_INLINE_EXTRA = ("cbor_bytestring_set_handle",)
+
+
+def item_inline_set(prog, exclude=()):
+    return {n for n in prog.funcs if (n.startswith(ITEM_INLINE_PREFIX) or n in ITEM_INLINE_EXTRA) and n not in exclude}
+
+
+def describe_item(prog, st, r):
+    """fields of the item at term r in state st: type, refcount, int/float width, flavour, data kind, payload"""
+    import paths as P
+    off = item_offsets(prog)
+    d = {}
+
+    def rd(o, ty):
+        ptr = P.mkptr(r, o)
+        return st.load(ptr, ty, None) if st.is_defined(ptr, 1) else None
+    d["type"] = rd(off["type"], "i32")
+    d["refcount"] = rd(off["refcount"], "i64")
+    d["meta0"] = rd(off["metadata"], "i32")       # int / float width
+    d["ctrl"] = rd(off["metadata"] + prog.field_offset("_cbor_float_ctrl_metadata", "ctrl"), "i8")
+    d["data"] = rd(off["data"], "i8*")
+    data = d["data"]
+    d["data_kind"] = None
+    if data is not None:
+        if data == ("c", 0):
+            d["data_kind"] = "null"
+        else:
+            b, o = P.ptr_key(data)
+            if b == P.ptr_key(r)[0]:
+                d["data_kind"] = "interior"
+                d["payload"] = {}
+                for ty in ("i8", "i16", "i32", "i64", "float", "double"):
+                    k = (b, o)
+                    if k in st.store and st.stype.get(k) == ty:
+                        d["payload"][ty] = st.store[k]
+            else:
+                d["data_kind"] = "other"
+    return d
+
+
+def result_states(prog, eff, fname, at_call=None, loop_bound=1, extra_inline=()):
+    """Per path of fname (constructors/setters inlined): the described item that is returned, or - when at_call is
+    given - the item passed as argument 0 to that callee, as the callee receives it."""
+    import paths as P
+    inl = item_inline_set(prog, exclude=(fname,)) | set(extra_inline)
+    X = P.Executor(prog, eff, inline=inl, max_paths=2000, loop_bound=loop_bound, snapshot_calls=(at_call,) if at_call else ())
+    out = []
+    for pa in X.run(fname):
+        if at_call:
+            for e in pa.events:
+                if e.kind == "call" and e.callee == at_call and e.depth == 0 and e.extra and "state" in e.extra:
+                    out.append(dict(path=pa, item=e.args[0], desc=describe_item(prog, e.extra["state"], e.args[0]), event=e))
+        else:
+            r = pa.ret
+            if r is None or r == ("c", 0) or not isinstance(r, tuple):
+                out.append(dict(path=pa, item=r, desc=None))
+            else:
+                out.append(dict(path=pa, item=r, desc=describe_item(prog, pa.st, r)))
+    return out
